@@ -13,11 +13,22 @@ import (
 // In-domain File generator shared by C05 / C06 (Files built through the public API).
 
 // genValue stores in-domain value #vi for entry e into fv; false when there is no such value.
+// zone offsets (seconds) for local timestamps paired with a UTC reference: not only whole hours / minutes
+var genLocalOffsets = []int{0, 1, -1, 29, 30, 31, 59, 61, -59, 3599, 3601, 12307, -12307, 45296, 86399, -86399, 86400, 90001}
+
 func genValue(fv reflect.Value, e fit.VerifField, vi int, salt int) bool {
 	bs := fitmodel.BaseSize(e.Base)
 	switch e.Kind {
 	case kindUTC, kindLocal:
 		secs := []int64{1, 1000000000 + int64(salt), 0xFFFFFFFE, 0x10000000, 0x7FFFFFFF, 0x80000000}
+		if e.Kind == kindLocal && vi >= 100 && !e.Array {
+			// value 100+i: the instant of timestamp value#1 seen in a zone that is genLocalOffsets[i] away from UTC
+			if vi-100 >= len(genLocalOffsets) {
+				return false
+			}
+			fv.Set(reflect.ValueOf(time.Unix(fitmodel.FitEpoch+secs[1], 0).In(time.FixedZone("FITLOCAL", genLocalOffsets[vi-100]))))
+			return true
+		}
 		if vi >= len(secs) {
 			return false
 		}
@@ -220,6 +231,7 @@ type genSpec struct {
 	Big     bool
 	Desc    string
 	WithRef bool // add a record with an explicit timestamp before (activity only) - not used for common slots
+	Stale   bool // the File's output fields (Header.CRC, Header.DataSize, CRC) hold stale non-zero values, as after a Decode
 }
 
 type genFieldSet struct {
@@ -238,6 +250,9 @@ func (g genSpec) build() (*fit.File, []reflect.Value, error) {
 	fid := fit.VerifNewMesg(0)
 	fid.FieldByName("Type").SetUint(uint64(g.Slot.FT))
 	f.FileId = fid.Interface().(fit.FileIdMsg)
+	if g.Stale {
+		f.Header.CRC, f.Header.DataSize, f.CRC = 0xBEEF, 0x01020304, 0x5A5A
+	}
 	p := prof()
 	var msgs []reflect.Value
 	for mi, fs := range g.Msgs {
